@@ -253,3 +253,119 @@ func execDecCoins(op string) (string, []common.Failure) {
 }
 
 var _ = sort.Strings
+
+// ---- DecCoins operations the Lean model answers too (prefix "dcoins."): the implementation's result in canonical
+// text, compared line by line with Posmint.DecCoins. The operands are wider than the monitors' (unsorted, zero and
+// negative amounts, repeated denominations, syntactically bad denominations, amounts at the 315-bit bound).
+
+var dcoinKinds = []string{"dcoins.add", "dcoins.sub", "dcoins.safesub", "dcoins.intersect", "dcoins.amountof", "dcoins.muldec",
+	"dcoins.muldectrunc", "dcoins.quodec", "dcoins.quodectrunc", "dcoins.trunc"}
+
+func genDecRaw(r *rand.Rand) string {
+	n := r.Intn(5)
+	var p []string
+	for i := 0; i < n; i++ {
+		d := goodDenoms[r.Intn(len(goodDenoms))]
+		if r.Intn(8) == 0 {
+			d = badDenoms[r.Intn(len(badDenoms))]
+		}
+		var a *big.Int
+		switch r.Intn(8) {
+		case 0:
+			a = big.NewInt(0)
+		case 1:
+			a = genBig(r, 315)
+		case 2:
+			a = new(big.Int).Mul(big.NewInt(int64(r.Intn(7)-2)), P)
+		case 3:
+			a = genBig(r, 255+60-r.Intn(3))
+		default:
+			a = genBig(r, 150)
+			a.Abs(a)
+		}
+		p = append(p, d+":"+a.String())
+	}
+	if r.Intn(3) != 0 {
+		sort.SliceStable(p, func(i, j int) bool { return strings.Split(p[i], ":")[0] < strings.Split(p[j], ":")[0] })
+	}
+	if len(p) == 0 {
+		return "-"
+	}
+	return strings.Join(p, ",")
+}
+
+func genDCoinsOp(r *rand.Rand) string {
+	k := dcoinKinds[r.Intn(len(dcoinKinds))]
+	at := genDecSet(r).text()
+	as := genDecSet(r)
+	bt := as.text()
+	if r.Intn(2) == 0 {
+		bt = related(r, as).text()
+		at = as.text()
+	}
+	if r.Intn(3) == 0 {
+		at = genDecRaw(r)
+	}
+	if r.Intn(4) == 0 {
+		bt = genDecRaw(r)
+	}
+	if r.Intn(2) == 0 {
+		at, bt = bt, at
+	}
+	switch k {
+	case "dcoins.trunc":
+		return k + " " + at
+	case "dcoins.muldec", "dcoins.muldectrunc", "dcoins.quodec", "dcoins.quodectrunc":
+		d := genBig(r, 100)
+		switch r.Intn(6) {
+		case 0:
+			d = new(big.Int).Mul(big.NewInt(int64(r.Intn(5)-1)), P)
+		case 1:
+			d = genBig(r, 315)
+		case 2:
+			d = big.NewInt(int64(r.Intn(5) - 2))
+		}
+		return fmt.Sprintf("%s %s %s", k, at, d)
+	case "dcoins.amountof":
+		d := goodDenoms[r.Intn(len(goodDenoms))]
+		if r.Intn(8) == 0 {
+			d = badDenoms[r.Intn(len(badDenoms))]
+		}
+		return fmt.Sprintf("%s %s %s", k, at, d)
+	}
+	return fmt.Sprintf("%s %s %s", k, at, bt)
+}
+
+func execDCoins(op string) (string, []common.Failure) {
+	f := strings.Fields(op)
+	k := f[0]
+	a := parseDecCoins(f[1])
+	obs := try(func() string {
+		switch k {
+		case "dcoins.add":
+			return "ok " + fmtDecCoins(a.Add(parseDecCoins(f[2])))
+		case "dcoins.sub":
+			return "ok " + fmtDecCoins(a.Sub(parseDecCoins(f[2])))
+		case "dcoins.safesub":
+			d, neg := a.SafeSub(parseDecCoins(f[2]))
+			return "ok " + fmtDecCoins(d) + " neg=" + fmt.Sprint(neg)
+		case "dcoins.intersect":
+			return "ok " + fmtDecCoins(a.Intersect(parseDecCoins(f[2])))
+		case "dcoins.amountof":
+			return "ok " + a.AmountOf(f[2]).Int.String()
+		case "dcoins.muldec":
+			return "ok " + fmtDecCoins(a.MulDec(mkDec(parse(f[2]))))
+		case "dcoins.muldectrunc":
+			return "ok " + fmtDecCoins(a.MulDecTruncate(mkDec(parse(f[2]))))
+		case "dcoins.quodec":
+			return "ok " + fmtDecCoins(a.QuoDec(mkDec(parse(f[2]))))
+		case "dcoins.quodectrunc":
+			return "ok " + fmtDecCoins(a.QuoDecTruncate(mkDec(parse(f[2]))))
+		case "dcoins.trunc":
+			w, ch := a.TruncateDecimal()
+			return "ok " + fmtCoins(w) + " | " + fmtDecCoins(ch)
+		}
+		return "bad-op"
+	})
+	return obs, nil
+}
